@@ -451,6 +451,18 @@ def c03(run, args):
     allmail = ("ok", "badsyntax", "sizebig", "sizebad", "badaddr", "origin", "null", "sizeok", "paramok")
     run.model_check("GenSmtp", gen_cfg(ALL_CMDS, 0, "mc", mailkinds=allmail, rcptkinds=("a1", "a2", "b", "c", "rej", "bad"),
                                        bodykinds=("ok", "nohdr", "unparseable", "big"), maxrcpts=(0, 2) if quick else (0, 1, 2, 3), tlsmodes=("off", "avail")), label="GenSmtp(contract model)")
+    # the implementation-shaped model of the session loop (SmtpImpl.tla): every step of it is the contract's action for the same
+    # command (label-preserving refinement); its two named deviations must make TLC find the predicted failures
+    impl_cfg = lambda a, b: ("SPECIFICATION ISpec\nCONSTANTS\n  Mailbox = {\"A\", \"B\", \"C\"}\n  RsetOpensSession = %s\n  NoResetOn552 = %s\n  TlsConfigured = TRUE\n"
+                             "INVARIANTS TypeOK EnvelopeOnlyInTransaction DataNeedsRecipient RcptCountBounded\nPROPERTIES Refines\nCONSTRAINT Bounded\nCHECK_DEADLOCK FALSE\n" % (a, b))
+    run.model_check("SmtpImpl", impl_cfg("FALSE", "FALSE"), label="SmtpImpl refines Smtp (command by command)")
+    for name, flags in (("RsetOpensSession", ("TRUE", "FALSE")), ("NoResetOn552", ("FALSE", "TRUE"))):
+        rc, out, dt = run.tlc("SmtpImpl", impl_cfg(*flags), workers=4, timeout=600, heap="4g")
+        predicted = [x for x in ("Refines", "EnvelopeOnlyInTransaction") if ("%s is violated" % x) in out]
+        run.cov["stages"].append({"stage": "model-check", "module": "SmtpImpl(%s=TRUE)" % name, "mode": "prediction", "violated_as_predicted": predicted, "wall_s": round(dt, 1)})
+        run.log("SmtpImpl with %s: predicted counterexample found for %s" % (name, predicted))
+        if not predicted:
+            raise Inconclusive("the deviation %s of SmtpImpl no longer produces its predicted failure: model and check have drifted apart" % name)
     # (0) STARTTLS configured: every edge over the commands whose meaning depends on where the session stands; an accepted
     #     STARTTLS is followed by a real TLS negotiation and the dialogue goes on encrypted (it must start over at the greeting)
     tls_cmds = ["helo", "mail", "rcpt", "data", "rset", "noop", "starttls", "authlogin", "quit"]
